@@ -1,5 +1,6 @@
 import InToto.Driver.Util
 import InToto.Model.Record
+import InToto.Model.Verify
 open Lean
 namespace Drv
 open InToto InToto.Record
@@ -53,8 +54,15 @@ def handleRecord (op : String) (a : Json) (q : String → Bool) : Option Json :=
     -- the command line tool exits non-zero exactly when one of the three lists is non-empty
     some (Json.mkObj (if op == "climatch" then base ++ [("exit_nonzero", Json.bool (!(r.1.isEmpty && r.2.1.isEmpty && r.2.2.isEmpty)))] else base))
   -- before/after discipline: materials are the directory before, products the directory after the
-  -- command (the expectation is computed by the harness from its own bookkeeping of the writes)
-  | "snapshots" => some (fld a "expect")
+  -- command (model: `Verify.runStep`)
+  | "snapshots" =>
+    let toFS (j : Json) : InToto.Verify.FS := ((objPairs j).getD []).map fun kv => (L kv.1, L (asStr kv.2))
+    let fsJ (fs : InToto.Verify.FS) : Json :=
+      Json.mkObj ((InToto.sortBy (fun x y => InToto.Json.strLt x.1 y.1) fs).map fun e => (S e.1, Json.str (S e.2)))
+    let r := InToto.Verify.runStep (toFS (fld a "before_d")) (toFS (fld a "writes_d")) ((getStrs a "dels").map L)
+    -- the same discipline for `run` and for `record start` … `record stop`
+    some (Json.mkObj [("run_materials", fsJ r.materials), ("run_products", fsJ r.products),
+                      ("rec_materials", fsJ r.materials), ("rec_products", fsJ r.products)])
   -- symlink cycles are not modelled: the harness only checks "error or correct record, no crash/hang"
   | "symcycle" => some (Json.str "fine")
   | _ => none
